@@ -3,6 +3,7 @@ package props
 import (
 	"encoding/json"
 	"fmt"
+	"math"
 	"reflect"
 	"strconv"
 	"strings"
@@ -66,6 +67,10 @@ func c11Sweep(t failer, test string, in []byte) (n uint64, feasible bool, nbudge
 				budgets[b] = true
 			}
 		}
+		// the budget is a uint64: the top of its range is as good as unlimited
+		for _, b := range []uint64{1<<31 - 1, 1 << 31, 1 << 32, 1<<63 - 1, 1 << 63, 1<<63 + 1, math.MaxUint64 - 1, math.MaxUint64} {
+			budgets[b] = true
+		}
 	}
 	check := func(b uint64) {
 		if b == 0 && !feasible {
@@ -74,7 +79,7 @@ func c11Sweep(t failer, test string, in []byte) (n uint64, feasible bool, nbudge
 		ast, err, steps := grammar.ParseWithStats("", in, grammar.MaxExpressions(b))
 		ev, cerr := bexpr.CreateEvaluator(string(in), bexpr.WithMaxExpressions(b))
 		nbudgets++
-		if b != 0 && steps > b+1 {
+		if b != 0 && b < math.MaxUint64 && steps > b+1 {
 			violation(t, "C11", test, c, "budget %d: the parser executed %d steps (> n+1) on %s", b, steps, c.InputQ)
 		}
 		sufficient := feasible && (b == 0 || b >= N)
